@@ -60,6 +60,8 @@ type Trans struct {
 	pubTypes    map[*types.TypeName]bool
 	pubInfos    map[*FuncInfo]*pubInfo
 	freshMemo   map[*types.Func]int // 0 unknown, 1 in progress, 2 yes, 3 no
+	selN        int
+	connBad     map[token.Pos]string
 	bufInfos    map[*FuncInfo]*bufInfo
 	freshRes    map[string]string
 	freshBusy   map[string]bool
@@ -222,6 +224,7 @@ func (t *Trans) setup() {
 			t.pubFields[st.Field(i)] = ps.Type + "." + st.Field(i).Name() + " (after publication)"
 		}
 	}
+	defer t.connPrepass()
 	// uses: direct call / go target / value
 	for _, p := range t.pkgs {
 		for _, f := range p.Files {
